@@ -498,7 +498,9 @@ def build(rule):
     p = RecurringPattern(rule["freq"], interval=rule["interval"], day=day_arg(rule),
                          day_of_month=rule["dom"] or None, month=rule["months"] or None,
                          start=start, duration=rule["dur"], tz=rule["tz"],
-                         exdates=rule["exdates"] or None, bysetpos=rule["setpos"] or None)
+                         # `exdates` is declared Iterable[int]: hand over a one-shot iterator
+                         exdates=(iter(list(rule["exdates"])) if rule["exdates"] else None),
+                         bysetpos=rule["setpos"] or None)
     return p
 
 
@@ -649,6 +651,12 @@ class RecurFamily(_LazyHeader, Family):
             add_exdates(rng, rule, occ)
             case = dict(rule=rule, a=a, b=b, rev=False, subs=[], form=form,
                         slice=(not self.hard and rng.random() < 0.2))
+            if rng.random() < 0.3:
+                per = PERIOD_S[rule["freq"]] * rule["interval"]
+                d = rng.choice([3600, DAY, rule["dur"], rule["dur"] + DAY, per, per + rule["dur"], 2 * per])
+                case["pre"] = [[a + d, b + d, False]]
+                if rng.random() < 0.3:
+                    case["pre"].append([a, b, True])
             if form is not None:
                 case["rule"]["exdates"] = []
             if self.hard:
@@ -679,6 +687,10 @@ class RecurFamily(_LazyHeader, Family):
             b = a + rng.choice([chunk + 1, chunk + DAY, 2 * chunk, 2 * chunk + rng.randrange(chunk), 3 * chunk + 5])
             if b > (WIN_HI + 400) * DAY:
                 a, b = a - (b - (WIN_HI + 400) * DAY), (WIN_HI + 400) * DAY
+        if rng.random() < 0.04:
+            # a window starting exactly at timestamp 0 (finite, but falsy in Python)
+            a = 0
+            b = rng.choice([DAY, 7 * DAY, chunk + DAY, 2 * chunk + 5, 3 * chunk])
         if a >= b:
             a = b - 1
         case["a"], case["b"] = a, b
@@ -723,6 +735,11 @@ class RecurFamily(_LazyHeader, Family):
             p = build(rule)
             a_ts, sod = eff_sod_anchor(rule)
             assert p.anchor_timestamp == a_ts and p.start_seconds == sod, "harness: anchor/start_seconds derivation"
+            # the same pattern object has answered other windows before (a later one, and the same
+            # one in the other direction): answers must not depend on what was asked earlier
+            for (pa, pb, prev) in case.get("pre", []):
+                for _ in p.fetch(pa, pb, reverse=prev):
+                    pass
             fwd = pairs(p.fetch(case["a"], case["b"]))
             rev = pairs(p.fetch(case["a"], case["b"], reverse=True)) if case["rev"] else None
             subs = []
@@ -753,7 +770,8 @@ class RecurFamily(_LazyHeader, Family):
                 + (f"datetime{tuple(r['anchor'])}@{r['tz']}" + (" as int" if r["as_int"] else "") if r["anchor"] else str(r["sod"]))
                 + f", duration={r['dur']}, tz={r['tz']!r}, exdates={r['exdates']}).fetch({case['a']}, {case['b']})"
                 + (" + [a:b]" if case.get("slice") else "") + (f" + {case['form']} form" if case.get("form") else "")
-                + (" + reverse" if case["rev"] else "") + (f" + nested {case['subs']}" if case["subs"] else ""))
+                + (" + reverse" if case["rev"] else "") + (f" + nested {case['subs']}" if case["subs"] else "")
+                + (f" [after fetching {case['pre']} on the same object]" if case.get("pre") else ""))
 
     def nontrivial(self, case, obs):
         return bool(obs["fwd"])
